@@ -16,6 +16,7 @@ import (
 	"os"
 	"strings"
 	"sync"
+	"sync/atomic"
 	"time"
 
 	"github.com/quic-go/quic-go"
@@ -381,13 +382,19 @@ func (s *Netceptor) DialContext(ctx context.Context, node string, service string
 		})
 	}
 	cctx, ccancel := context.WithCancel(ctx)
+	// The context governs the dial, not the connection it returns: whether the dial was abandoned
+	// or has succeeded is decided exactly once (0 = dialling, 1 = established, 2 = abandoned),
+	// so that a context that ends at the very moment of success cannot close the socket of a
+	// connection that is handed to the caller.
+	var dialState int32
 	go func() {
 		select {
 		case <-okChan:
 			return
 		case <-cctx.Done():
-			pcClose()
 		case <-s.context.Done():
+		}
+		if atomic.CompareAndSwapInt32(&dialState, 0, 2) {
 			pcClose()
 		}
 	}()
@@ -432,6 +439,17 @@ func (s *Netceptor) DialContext(ctx context.Context, node string, service string
 		}
 
 		return nil, err
+	}
+	if !atomic.CompareAndSwapInt32(&dialState, 0, 1) {
+		// the context ended while the last step of the dial completed: the socket is gone
+		close(okChan)
+		_ = qs.Close()
+		_ = qc.CloseWithError(500, "dial abandoned")
+		if cctx.Err() != nil {
+			return nil, cctx.Err()
+		}
+
+		return nil, fmt.Errorf("netceptor shutdown")
 	}
 	close(okChan)
 	go func() {
